@@ -320,7 +320,8 @@ def build_model(engine):
             raise BuildError("coq build of the models of engine %s failed" % engine, out[-4000:])
         src = tree_files(os.path.join(COQ, "model"), (".v",)) + tree_files(os.path.join(COQ, "spec"), (".v",)) \
             + tree_files(os.path.join(COQ, "gen"), (".v",)) \
-            + [ev, os.path.join(COQ, "extract", engine + ".ml"), os.path.join(COQ, "extract", "drvlib.ml")]
+            + [ev, os.path.join(COQ, "extract", engine + ".ml"), os.path.join(COQ, "extract", "drvlib.ml")] \
+            + [os.path.join(COQ, "extract", x) for x in sorted(os.listdir(os.path.join(COQ, "extract"))) if x.startswith("lib_")]
         stamp = os.path.join(CACHE, "extract-%s.stamp" % engine)
         h = file_hash(src)
         if os.path.exists(binary) and os.path.exists(stamp) and open(stamp).read() == h:
@@ -336,6 +337,9 @@ def build_model(engine):
         if rc != 0:
             raise BuildError("extraction of engine %s failed" % engine, (out + err)[-4000:])
         sh(["cp", os.path.join(COQ, "extract", "drvlib.ml"), d], check=True)
+        for lib in re.findall(r"\(\* uses: ([A-Za-z0-9_. ]+?) \*\)", open(os.path.join(COQ, "extract", engine + ".ml")).read()):
+            for one in lib.split():
+                sh(["cp", os.path.join(COQ, "extract", one), d], check=True)
         sh(["cp", os.path.join(COQ, "extract", engine + ".ml"), os.path.join(d, "zz_main.ml")], check=True)
         rc, out, err = sh("ocamlfind ocamlopt -O2 -w -a -I . $(ocamldep -sort *.mli *.ml) -o %s" % binary,
                           cwd=d, timeout=900)
